@@ -715,6 +715,28 @@ def replay_schedules(c, scheds, label):
         c.keys.add(s)
 
 
+def pair_builds(c, all_traces, tag):
+    """`pair` events: the complete event line of every call must be identical in every build"""
+    base = all_traces['dev']
+    pair_files = []
+    for label, traces in all_traces.items():
+        if label == 'dev':
+            continue
+        for i, (ta, tb) in enumerate(zip(base, traces)):
+            la, lb = open(ta).read().splitlines(), open(tb).read().splitlines()
+            out = os.path.join(c.work, 'P%s_%s_%d.ndjson' % (tag, label, i))
+            with open(out, 'w') as f:
+                for a, b in zip(la, lb):
+                    ja = json.loads(a)
+                    if ja['ev'] in ('set', 'get', 'accset', 'spawn'):
+                        continue
+                    f.write(json.dumps({'ev': 'pair', 't': 1, 'builds': ['dev', label], 'call': ja, 'outs': [a, b]}) + '\n')
+                if len(la) != len(lb):
+                    f.write(json.dumps({'ev': 'pair', 't': 1, 'builds': ['dev', label], 'call': {'note': 'traces differ in length'}, 'outs': [str(len(la)), str(len(lb))]}) + '\n')
+            pair_files.append(out)
+    c.validate_many(pair_files, 'pair' + tag)
+
+
 def plan_C20(c):
     """the same seeded driver in several build configurations: every build's trace must be accepted by the same
     Trace.tla, and `pair` events require identical observables build by build"""
@@ -730,25 +752,28 @@ def plan_C20(c):
         traces = c.drive('c20', n, chunks, profile=prof, features=feats, label=label)
         all_traces[label] = traces
         c.validate_many(traces, 'V:c20[%s]' % label)
-    # pairwise: identical observables where Allowed is not a singleton (and everywhere else)
-    base = all_traces['dev']
-    pair_files = []
-    for label, traces in all_traces.items():
-        if label == 'dev':
-            continue
-        for i, (ta, tb) in enumerate(zip(base, traces)):
-            la, lb = open(ta).read().splitlines(), open(tb).read().splitlines()
-            out = os.path.join(c.work, 'P_%s_%d.ndjson' % (label, i))
-            with open(out, 'w') as f:
-                for a, b in zip(la, lb):
-                    ja = json.loads(a)
-                    if ja['ev'] in ('set', 'get', 'accset', 'spawn'):
-                        continue
-                    f.write(json.dumps({'ev': 'pair', 't': 1, 'builds': ['dev', label], 'call': ja, 'outs': [a, b]}) + '\n')
-                if len(la) != len(lb):
-                    f.write(json.dumps({'ev': 'pair', 't': 1, 'builds': ['dev', label], 'call': {'note': 'traces differ in length'}, 'outs': [str(len(la)), str(len(lb))]}) + '\n')
-            pair_files.append(out)
-    c.validate_many(pair_files, 'pair')
+    pair_builds(c, all_traces, 'V')
+    # G: the single-point operand grid (unary operations) and boundary-class pairs (binary operations) in every build
+    UN = ['floor', 'ceil', 'trunc', 'fract', 'abs', 'neg', 'round', 'checked_round']
+    BIN = ['add', 'sub', 'mul', 'div', 'rem', 'checked_add', 'checked_sub', 'checked_mul', 'checked_div', 'checked_rem', 'div_rounded', 'mul_rounded', 'quantize']
+    calls = [{'ev': 'set', 't': 1, 'mode': MODES[(c.seed * 3 + 1) % 8]}]
+    for i, x in enumerate(grid(c, 'operands')):
+        op = UN[(i + i // len(UN)) % len(UN)]
+        calls.append({'ev': 'un', 't': 1, 'op': op, 'x': x, 'n': [0, -1, 2, 17, -38][(i // 3) % 5]})
+        if i % 4 == 0:
+            calls.append([{'ev': 'ratio', 't': 1, 'x': x}, {'ev': 'hash', 't': 1, 'x': x}, {'ev': 'str', 't': 1, 'x': x}, {'ev': 'tofloat', 't': 1, 'x': x},
+                          {'ev': 'obs', 't': 1, 'op': 'magnitude', 'x': x}][(i // 4) % 5])
+    stride = 6 if c.tier == 'quick' else 2
+    vecs = sorted(grid(c, 'bounds'), key=lambda v: json.dumps(v, sort_keys=True))[c.seed % stride::stride]
+    for i, vv in enumerate(vecs):
+        op = BIN[(i + i // len(BIN)) % len(BIN)]
+        calls.append({'ev': 'bin', 't': 1, 'op': op, 'x': vv['x'], 'y': vv['y'], 'xt': 'dec', 'yt': 'dec', 'n': [0, 18, 2, 9][(i // 7) % 4], 'acc': 0, 'form': i % 4})
+    g_traces = {}
+    for prof, feats in builds:
+        label = prof + ('_packed' if 'packed' in feats else '')
+        g_traces[label] = c.exec_vectors(calls, 'grid_' + label, chunks=8, profile=prof, features=feats)
+        c.validate_many(g_traces[label], 'G:grid[%s]' % label)
+    pair_builds(c, g_traces, 'G')
     c.cov['builds'] = sorted(all_traces)
 
 
